@@ -205,3 +205,44 @@ Fixpoint run_secs (e : env) (st : state) (ss : list sec) : state * list result :
   | s :: ss' => let (st', r) := step e s st in
                 let (stf, rs) := run_secs e st' ss' in (stf, r :: rs)
   end.
+
+(* ---- specification vocabulary used by the theorems (definitions only) ---- *)
+
+(* The shared state agrees with what is on disk wherever it claims to be loaded, and the
+   configuration directory is disabled (the precondition of the property).  Holds for
+   init_state after DisableConfigDir, and after any sequential warm-up. *)
+Definition coherent (e : env) (st : state) : Prop :=
+  s_cfg st = true /\
+  (s_once st = true ->
+     match e_fonts e with
+     | None => s_err st = true
+     | Some t => s_err st = false /\ s_fonts st = t
+     end) /\
+  (s_loaded st = true -> s_dir st = e_certdir e -> s_rev st = e_rev e ->
+     exists p, e_pool e = Some p /\ s_pool st = Some p).
+
+(* "user fonts have been loaded successfully" / "a trust pool has been loaded successfully" *)
+Definition fonts_loaded (e : env) (st : state) : Prop := s_once st = true /\ e_fonts e <> None.
+Definition pool_loaded (e : env) (st : state) : Prop := exists p, e_pool e = Some p /\ s_pool st = Some p.
+
+(* Well-formed operation: a section that reads the font table is preceded, in the same
+   operation, by SLoad/SReload (k1), a section that reads the pool by SLoadCerts (k2) —
+   unless that knowledge (k1/k2) is available before the operation starts. *)
+Definition needs (k1 k2 : bool) (s : sec) : bool :=
+  match s with SLookup _ | SNames => k1 | SGetPool => k2 | _ => true end.
+Definition gives1 (s : sec) : bool := match s with SLoad | SReload => true | _ => false end.
+Definition gives2 (s : sec) : bool := match s with SLoadCerts => true | _ => false end.
+Fixpoint wf_secs (k1 k2 : bool) (ss : list sec) : bool :=
+  match ss with
+  | [] => true
+  | s :: ss' => needs k1 k2 s && wf_secs (k1 || gives1 s) (k2 || gives2 s) ss'
+  end.
+Definition wf_op (o : op) : bool := wf_secs false false o.
+Definition wf_threads (k1 k2 : bool) (ths : list (list op)) : Prop :=
+  Forall (Forall (fun o => wf_secs k1 k2 o = true)) ths.
+
+(* observable part of the final state (everything but the `loaded` cache flag, which
+   legitimately depends on whether an InvalidateCertificatePool came last) *)
+Definition obs (st : state) := (s_fonts st, s_once st, s_err st, s_cfg st, s_dir st, s_rev st, s_pool st).
+
+Definition all_done (ps : list prog) : Prop := Forall (fun p => p = []) ps.
